@@ -95,11 +95,12 @@ pub proof fn lemma_delta(out0: Seq<u8>, d: Seq<u8>)
 
 // label: C13.tcp.response.roundtrip.ok
 // an ok response: what send_ok_response(payload) puts on the server's wire is returned by the client's send_raw as exactly `payload`,
-// for every payload (below 4 GiB), and the client's wire then stands at `rest` (the next response)
+// for every payload (below 4 GiB, not of length 1), and the client's wire then stands at `rest` (the next response)
 pub fn harness_ok_response<T: AsyncRead + AsyncWrite + Unpin>(srv: &mut T, cli: &TcpClient, cs: &mut ConnectionStreamKind, code: u32, request: ByteSeq, payload: &[u8], Ghost(rest): Ghost<Seq<u8>>)
     -> (r: (Result<(), IggyError>, Result<ByteSeq, IggyError>))
     requires
         payload@.len() <= u32::MAX,
+        payload@.len() != 1,      // no server response has a 1-byte body (observation O5: the client would drop it)
     ensures
         (r.0 is Ok && old(cs).incoming() == final(srv).outgoing().skip(old(srv).outgoing().len() as int) + rest) ==>
             (r.1 matches Ok(b) ==> b@ == payload@ && final(cs).incoming() == rest) && (r.1 matches Err(e) ==> transport_error(e)),
